@@ -46,6 +46,13 @@ def run(chk: Check, drv: Driver):
                 chk.count("status_" + pr.status)
                 if pr.status == "ok":
                     prepared.append(pr)
+            from ..export import export
+
+            certs = drv.batch(["CERT noalloc " + sx(export(pr.func("compute"))) for pr in prepared])
+            for pr, c in zip(prepared, certs):
+                chk.count("compute_kernels_certified_noalloc" if c == "true" else "compute_kernels_not_noalloc")
+                if c != "true":
+                    chk.violation("compute kernel contains an allocation (certificate noAlloc fails)", pr.case(capacity=cap, kernel="compute"))
             items = []
             for pr in prepared:
                 for _ in range(2 if quick else 4):
